@@ -417,6 +417,9 @@ def run_one(ck, prog):
                         if x[0] == "field" and (x[3] or "").endswith("AuxValues"):
                             fields.add(x[2])
         ck.ob("C07.5", f"getter|{g}", fields == {fld}, fn=fn["path"], detail=f"{g} reads fields {sorted(fields)}; must read {fld}")
+        # what a getter hands out comes from the aux vector alone (argv[0] is what the caller of execve chose to say, AT_EXECFN what was executed)
+        foreign = sorted({t.get("callee") for _, t in ctx.cfg.calls() if (t.get("callee") or "").startswith("tiny_std::")})
+        ck.ob("C07.5", f"getter-source|{g}", not foreign, fn=fn["path"], detail=f"{g} consults {foreign}: an aux getter must deliver the kernel's aux value, nothing else")
         casts = sorted({s["rv"]["ty"] for b in fn["blocks"] for s in b["stmts"] if s["k"] == "assign" and s["rv"]["k"] == "cast" and s["rv"]["ck"] == "IntToInt"})
         ck.ob("C07.5", f"getter-width|{g}", all(c in ("u32", "u64", "usize", "i64", "u128") for c in casts), fn=fn["path"], detail=f"{g} converts the aux word to {casts}; ids are 32-bit values, a narrower type truncates them")
 
